@@ -285,7 +285,8 @@ psRes_t psX509ParseCertData(psPool_t *pool,
                 certData->len,
                 &current,
                 flags);
-        if (err < 0 && !(flags & CERT_ALLOW_BUNDLE_PARTIAL_PARSE))
+        if (err < 0 &&
+            (current == NULL || !(flags & CERT_ALLOW_BUNDLE_PARTIAL_PARSE)))
         {
             psX509FreeCert(current);
             psFreeList(certDatas, pool);
